@@ -19,12 +19,13 @@ struct Node {
 fn letters_for(which: &str) -> Vec<Letter> {
     let mut v = vec![];
     // index 0 must be the default action: 0.6M, dt=1, engine on
-    let engines: Vec<usize> = if which == "C08" { vec![0, 1, 2] } else { vec![0] };
+    // engine command letters: C08 (engine-off clause) and C09 (an engine commanded off must not slip past the limit checks)
+    let engines: Vec<usize> = if which == "C08" || which == "C09" { vec![0, 1, 2] } else { vec![0] };
     for &e in &engines {
         let ndt = if which == "C01" { DTS.len() } else { 3 };
         for dt in 0..ndt {
             for d in 0..DEMANDS.len() {
-                if which == "C08" && e != 0 && dt != 0 {
+                if (which == "C08" || which == "C09") && e != 0 && dt != 0 {
                     continue; // engine command x dt: cover on the default dt only
                 }
                 v.push(Letter { demand: d, dt, engine: e });
@@ -173,11 +174,11 @@ impl Prop for PtProp {
         let (d, l, k) = self.bounds(tier);
         let consist_part = if self.which == "C01" || self.which == "C09" { format!(" PLUS consists: {}", super::consist_lab::rule(self.which, tier)) } else { String::new() };
         format!(
-            "E-SEQ on real Locomotive objects driven like LocomotiveSimulation::solve_step: alphabet = {} letters (14 demands relative to the limits just published: {:?}; dt in {:?} (20 s for C01 only){}), every sequence of length <= {} (FULL), every sequence of length {} departing from the default letter (0.6M, dt=1, engine on) in <= 1 position (DEV(L,1)) on every powertrain configuration of the {} PT family (conventional + battery-electric; C08 also hybrid units), and every sequence of length {} with <= 2 departures (DEV(L,2)) on the star-design configurations; C01 repeats FULL and DEV(L,1) on the star-design configurations with the public option assert_limits = false. Oracle on every accepted step (= every prefix of every history). distinct_nontrivial = number of distinct behaviour signatures (unit type x traction/regen/dyn-brake/zero x which transient bound is active x which limit binds x engine command x dt, and rejected-letter x error kind).{}",
+            "E-SEQ on real Locomotive objects driven like LocomotiveSimulation::solve_step: alphabet = {} letters (14 demands relative to the limits just published: {:?}; dt in {:?} (20 s for C01 only){}), every sequence of length <= {} (FULL), every sequence of length {} departing from the default letter (0.6M, dt=1, engine on) in <= 1 position (DEV(L,1)) on every powertrain configuration of the {} PT family (conventional + battery-electric; C08 also hybrid units), and every sequence of length {} with <= 2 departures (DEV(L,2)) on the star-design configurations; C01 and C08 repeat FULL and DEV(L,1) on the star-design configurations with the public option assert_limits = false. Oracle on every accepted step (= every prefix of every history). distinct_nontrivial = number of distinct behaviour signatures (unit type x traction/regen/dyn-brake/zero x which transient bound is active x which limit binds x engine command x dt, and rejected-letter x error kind).{}",
             letters_for(self.which).len(),
             DEMANDS,
             DTS,
-            if self.which == "C08" { "; engine command in {on, None, off}" } else { "" },
+            if self.which == "C08" || self.which == "C09" { "; engine command in {on, None, off}" } else { "" },
             d,
             l,
             if tier.is_thorough() { "full-product" } else { "star-design" },
@@ -232,7 +233,7 @@ impl Prop for PtProp {
             }
         }
         // C01: the same exploration with the public option assert_limits = false on the star-design configurations
-        if self.which == "C01" {
+        if self.which == "C01" || self.which == "C08" {
             for cfg in &star_cfgs {
                 for first in 0..letters.len() {
                     if !ctx.claim() {
